@@ -20,7 +20,7 @@
 From Coq Require Import ZArith List Arith String.
 From SP Require Import Design.Flat Design.Layout Design.LayoutWf Design.LayoutProofs Design.LayoutExamples.
 From SP Require Import Sample.Decode Sample.DecodeWf Sample.DecodeProofs.
-From SP Require Import Front.CreateFlat Front.CreateWf.
+From SP Require Import Front.CreateFlat Front.CreateWf Front.CreateWfDecode.
 Import ListNotations.
 
 (** Distinct choices never share a variable. *)
@@ -124,14 +124,40 @@ Theorem C14_layout_of_created :
 Proof. exact layout_of_created. Qed.
 Print Assumptions C14_layout_of_created.
 
+(** Decoding on a created record: all three hypotheses of [C14_decode_onehot] about [fb] are discharged
+    ([act_keys_distinct] from [design_keys_distinct ci], Front/CreateWfDecode.v: the dict keys of the factors
+    of the design handed to the constructor are pairwise distinct; a created record has at least one trial). *)
+Theorem C14_decode_of_created :
+  forall (ci : create_input) (fb : flat),
+    input_ok ci = true -> design_keys_distinct ci = true -> create_flat ci = FOk fb ->
+    forall s : nat -> nat -> nat,
+      (forall f t, In f (fl_act fb) /\ 1 <= t <= fl_trials fb /\ applies_at fb f t = true ->
+                   s f t < nlevels fb f) ->
+      forall sol : list Z,
+        NoDup sol ->
+        (forall v, 1 <= v <= variables_per_sample fb ->
+                   (In (Z.of_nat v) sol <->
+                    exists f t, (In f (fl_act fb) /\ 1 <= t <= fl_trials fb /\ applies_at fb f t = true) /\
+                                encode_variable fb f (s f t) t = Some v)) ->
+        exists d,
+          decode fb sol = DOk d /\
+          (forall f, In f (fl_act fb) ->
+                     lookup (key_of fb f) d
+                     = Some (map (fun t0 => if applies_at fb f (S t0)
+                                            then level_name fb f (s f (S t0)) else EmptyString)
+                                 (seq 0 (fl_trials fb)))) /\
+          (forall k ys, In (k, ys) d -> exists f, In f (fl_act fb) /\ k = key_of fb f).
+Proof. exact decode_of_created. Qed.
+Print Assumptions C14_decode_of_created.
+
 (** [input_ok] is met by the arguments of
     MultiCrossBlock([o, i, t], [[o, t], [i]], [MinimumTrials(7), AtMostKInARow(1, i)], mode=WEIGHT, alignment=PARALLEL_START)
     (t a transition factor on o) and [create_flat] builds the 7-trial record of the real block from them *)
 Example C14_example_created :
-  input_ok ex_ok_input = true /\
+  input_ok ex_ok_input = true /\ design_keys_distinct ex_ok_input = true /\
   exists fb, create_flat ex_ok_input = FOk fb /\ fl_act fb = [0; 1; 2] /\ fl_trials fb = 7 /\
              variables_per_sample fb = 7 * 4 + 6 * 2 /\ encode_variable fb 2 1 3 = Some 32.
-Proof. split; [vm_compute; reflexivity|]. eexists. split; [vm_compute; reflexivity|]. repeat split. Qed.
+Proof. split; [vm_compute; reflexivity|]. split; [reflexivity|]. eexists. split; [vm_compute; reflexivity|]. repeat split. Qed.
 
 (** The hypotheses are met by the flat record of
     Repeat(CrossBlock([f, t], [f], [AtMostKInARow(1, (t, "same"))]), [MinimumTrials(5)])
